@@ -80,6 +80,18 @@ def run(chk, tier):
     emp = [k for k in seen if "Empty" in k]
     ok_seq = len(seq) == 1 and len(seen[seq[0]]) == 1 and H.lit(seen[seq[0]][0][5][0])[1] == "Value" and "items" in H.show(seen[seq[0]][0][5][1], 6)
     chk.expect(ok_seq, "json-form", "element-serializer", "SQ", "Value: array of item objects", [H.show(e, 6) for k in seq for e in seen[k]], loc=C.fn_loc(h))
+    # the items are written whenever there are items: the entry is unconditional, or its condition looks at the item list itself
+    # (the recorded byte length of a sequence, HasLength::is_empty / length(), says nothing about the items it holds)
+    for p, g, b, ln in H.match_arms(vm[0]):
+        if not H.show_pat(p).startswith("Sequence"):
+            continue
+        for n, anc in H.walk_anc(b):
+            if H.kind(n) == "mcall" and n[3] == "serialize_entry":
+                conds = [H.show(a[2], 6) for a in anc if H.is_node(a) and H.kind(a) == "if"] + ([H.show(g, 6)] if g is not None else [])
+                bad_c = [c for c in conds if "items()" not in c and "multiplicity()" not in c]
+                chk.expect(not bad_c, "json-form", "element-serializer", "SQ-items-always-written", "unconditional, or conditional on the item list", bad_c or conds, loc=f"{h['loc']['f']}:{n[1]}")
+    ls = [c for c, x in H.calls(h["body"]) if c and re.search(r"header::HasLength::(is_empty|length)$", c)]
+    chk.expect(not ls, "json-form", "element-serializer", "no-decision-on-recorded-length", "no HasLength::is_empty / length in the element serializer", ls)
     chk.expect(len(emp) == 1 and not seen[emp[0]], "json-form", "element-serializer", "empty-value", "no Value member", [H.show(e) for k in emp for e in seen[k]])
     # vr member first and unconditional: the first serialize_entry in the body, not inside any match/if
     first = None
